@@ -41,7 +41,7 @@ func init() {
 		Findings: map[string]func(v *mon.Violation) bool{},
 		Floors: func(tier string, cover map[string]int64, evals int64) []string {
 			var out []string
-			for _, k := range []string{"op:Generify+Simplify", "op:GenAlter+Alter", "op:Dup", "op:Decompose", "op:Node.Dup", "op:writers", "op:gen.Parser-vs-Generify", "op:gen.ParseReader-refill-boundary", "alias:pointer-walk", "alias:mutate-copy", "alias:mutate-original", "kind:time", "kind:big", "enumerated-trees"} {
+			for _, k := range []string{"op:Generify+Simplify", "op:GenAlter+Alter", "op:alt.Alter", "op:Dup", "op:Decompose", "op:Node.Dup", "op:writers", "op:gen.Parser-vs-Generify", "op:gen.ParseReader-refill-boundary", "alias:pointer-walk", "alias:mutate-copy", "alias:mutate-original", "kind:time", "kind:big", "enumerated-trees"} {
 				if cover[k] == 0 {
 					out = append(out, "coverage class never reached: "+k)
 				}
@@ -367,7 +367,9 @@ func (ck *checker) tree(v any, enum bool) {
 			f    func(x any) string
 		}{
 			{"oj.JSON", func(x any) string { return oj.JSON(x, o) }},
-			{"oj.JSON(indent)", func(x any) string { return oj.JSON(x, &ojg.Options{Sort: true, Indent: 2, TimeFormat: time.RFC3339Nano}) }},
+			{"oj.JSON(indent)", func(x any) string {
+				return oj.JSON(x, &ojg.Options{Sort: true, Indent: 2, TimeFormat: time.RFC3339Nano})
+			}},
 			{"sen.String", func(x any) string { return sen.String(x, o) }},
 			{"pretty.JSON", func(x any) string { return pretty.JSON(x, o) }},
 			{"pretty.SEN", func(x any) string { return pretty.SEN(x, o, 20.2) }},
@@ -399,6 +401,55 @@ func (ck *checker) tree(v any, enum bool) {
 			c.Violation("alt.GenAlter+Alter", "value-changed", kindClass(s0, got), cs, clip(s0), clip(got))
 		}
 	}
+	// alt.Alter on simple data (in place, exempt from alias checks): the value is kept, also when the data
+	// holds the narrower Go number types Alter exists to widen
+	c.Cover("op:alt.Alter")
+	var aa any
+	if pn := mon.Guard(func() { aa = alt.Alter(dupAny(v), keep) }); pn != nil {
+		c.Violation("alt.Alter", "panic", mon.FaultClass(pn.Msg), cs, "value", pn.String())
+	} else {
+		c.Eval(1)
+		if got := show(aa); loose(got) != loose(s0) {
+			c.Violation("alt.Alter", "value-changed", kindClass(s0, got), cs, clip(s0), clip(got))
+		}
+	}
+	if pn := mon.Guard(func() { aa = alt.Alter(narrow(dupAny(v)), keep) }); pn != nil {
+		c.Violation("alt.Alter(narrow numbers)", "panic", mon.FaultClass(pn.Msg), cs, "value", pn.String())
+	} else {
+		c.Eval(1)
+		if got := show(aa); loose(got) != loose(s0) {
+			c.Violation("alt.Alter(narrow numbers)", "value-changed", kindClass(s0, got), cs, clip(s0), clip(got))
+		}
+	}
+}
+
+// narrow replaces small int64 leaves by int / int32 / uint8 and floats that fit by float32 (values that are
+// exactly representable), the types alt.Alter and alt.Decompose widen back.
+func narrow(v any) any {
+	switch t := v.(type) {
+	case []any:
+		for i := range t {
+			t[i] = narrow(t[i])
+		}
+	case map[string]any:
+		for k := range t {
+			t[k] = narrow(t[k])
+		}
+	case int64:
+		switch {
+		case t >= 0 && t < 200 && t%3 == 0:
+			return uint8(t)
+		case t > -1000 && t < 1000 && t%3 == 1:
+			return int32(t)
+		case t > -1<<40 && t < 1<<40:
+			return int(t)
+		}
+	case float64:
+		if f := float32(t); float64(f) == t && t < 1e6 && t > -1e6 && t != 0 { // not -0: the widening drops the sign of a zero
+			return f
+		}
+	}
+	return v
 }
 
 var leafKinds = []any{nil, true, int64(7), 2.5, "s", t0, json.Number("123456789012345678901234567890")}
